@@ -30,8 +30,10 @@ def check(ctx: Ctx, rep: Report):
     rep.rule("C10.R2", "an open transport is never forgotten: _transport = None only after close(); only connection_made/_connect assign it", 3)
     rep.rule("C10.R3", "keep-alive off => closed on every exit of a request; close() and _max_retries_reached always reach _close_transport", 8)
     rep.rule("C10.R4", "loop change and connection loss close the transport; _close_transport tolerates RuntimeError", 5)
+    rep.rule("C10.R5", "keep-alive on: a successful request does not close the transport", 4)
     prog, res = ctx.prog, ctx.res
     classes = proto_classes(ctx)
+    r5(ctx, rep, classes)
     # ---- R1
     for fn in res.all_funcs():
         for n in res._own_nodes(fn):
@@ -163,3 +165,39 @@ def check(ctx: Ctx, rep: Report):
             bad = [p for p in enumerate_paths(prog, m, no_raise) if not any(ev.kind == "call" and "close_transport" in tags(ev) for ev in p.events)]
             rep.check(not bad, "C10.R4", "lost:%s.%s" % (ci.name, cbname), m.loc(), "%s.%s reaches _close_transport()" % (ci.name, cbname),
                       bad="%s.%s does not drop the dead transport: the next request would write to it [path %s]" % (ci.name, cbname, bad[0].describe() if bad else ""))
+
+
+def r5(ctx: Ctx, rep: Report, classes):
+    prog = ctx.prog
+    for ci in classes:
+        # receive callbacks: the delivering path leaves the transport alone
+        for cb in [f for f in loop_callbacks(ctx, ci) if f.name in ("datagram_received", "data_received")]:
+            bad = None
+            n = 0
+            for p in protocol_paths(ctx, cb):
+                if not any(ev.kind == "call" and "fut_set_result" in tags(ev) for ev in p.events):
+                    continue
+                n += 1
+                if any(ev.kind == "call" and ("close_transport" in tags(ev) or "transport_close" in tags(ev)) for ev in p.events):
+                    bad = p
+            if n == 0:
+                raise AnalysisError("%s has no delivering path" % cb.short)
+            rep.check(bad is None, "C10.R5", "deliver-keeps:%s" % cb.short, cb.loc(), "%s delivers a result without closing the transport" % cb.short,
+                      bad="%s closes the transport while delivering a valid answer: with keep-alive on every request opens a new socket [path %s]" % (cb.short, bad.describe(6) if bad else ""))
+        # send_request: the success exit closes only under 'not keep_alive'
+        sr = method(ctx, ci, "send_request")
+        bad = None
+        n = 0
+        for p in protocol_paths(ctx, sr):
+            if p.end != "return" or any(ev.kind == "catch" for ev in p.events):
+                continue
+            ka = [ev for ev in p.events if ev.kind == "test" and norm(ev.node) == "self.keep_alive"]
+            keepalive_on = any(ev.data is True for ev in ka)
+            closes = any(ev.kind == "call" and "close_transport" in tags(ev) for ev in p.events)
+            n += 1
+            if closes and (keepalive_on or not ka):
+                bad = p
+        if n == 0:
+            raise AnalysisError("%s has no plain success path" % sr.short)
+        rep.check(bad is None, "C10.R5", "success-keeps:%s" % sr.short, sr.loc(), "%s keeps the transport after a success unless keep_alive is off" % sr.short,
+                  bad="%s closes the transport after a successful request although keep_alive is on (or without asking) [path %s]" % (sr.short, bad.describe(8) if bad else ""))
